@@ -217,6 +217,9 @@ int main(int argc, char** argv) {
         { int dF = int(a.geti("dF", tier == "quick" ? 8 : 10));
           for (auto sv : svs) for (uint32_t f : {0u, ref::F_STANDARD}) { Item itF{Cfg{sv, f, {}}, {}, dF, true}; items.push_back(itF); }
           plan.push_back("F: depth " + std::to_string(dF) + " over the conditional alphabet {0, 1, IF, NOTIF, ELSE, ENDIF, DROP} from [] under {NONE, STANDARD} x 3 sigversions (deep nesting and ELSE patterns)"); }
+        // G: every symbol once on a single item of every legal length 0..520 (length-dependent behaviour: hash padding, SIZE, numeric limits, truth value)
+        { for (auto sv : svs) for (size_t n = 0; n <= 520; n++) add(sv, ref::F_STANDARD, {alpha::filler(n)}, 1, false);
+          plan.push_back("G: depth 1 (every symbol) from a one-item stack for every item length 0..520 x 3 sigversions under STANDARD"); }
         // E: depth 1 from every triple over V (operand order / off-by-one / sign handling)
         { auto Vv = alpha::V(); int n = tier == "quick" ? 12 : int(Vv.size()); std::vector<bytes> sub(Vv.begin(), Vv.begin() + std::min<size_t>(n, Vv.size()));
           for (auto sv : svs) for (uint32_t f : {0u, ref::F_STANDARD}) for (auto& init : tuples(sub, 3)) if (init.size() >= 2) add(sv, f, init, 1, false);
